@@ -42,3 +42,20 @@ Example C05_nonvacuous :
   map fst (sweep (commit ex_cfg) ex_cfg (ex_tree ex_d10) Kill 32) =
     [0; 0; 0; 0; 0; 0; 0; 0; 0; 0; 0; 0; 0; 0; 0; 0; 0; 0; 2; 2; 2; 2; 2; 2; 2; 1; 1; 1; 1; 1; 1; 1]%N.
 Proof. vm_compute. repeat split. Qed.
+
+(** recovery after a kill: at EVERY kill position of the instance with five identical new files (and of the instance
+    with a duplicate of committed content) the staged inventory on disk, when complete, lists only content files that
+    exist in the staged object or in the object - so the retried commit's dedup never keeps a deleted copy - and the
+    commit retried from the killed tree either fails or yields the valid fault-free object *)
+Example C05_staged_inventory_refs_exist :
+  commit_pre_b ex_cfg exm_tree exm_inv = true /\
+  kill_refs_ok PCommit ex_cfg exm_tree = true /\
+  kill_refs_ok PCommit ex_cfg (ex_tree ex_d10) = true /\
+  forallb (fun k =>
+             let t1 := remove (lockp ex_cfg) (run_tree (commit ex_cfg) exm_tree (Kill k)) in
+             let r := run (commit ex_cfg) t1 NoInj in
+             negb (N.eqb (res_code (fst r)) 0)
+             || (obj_validb ex_cfg (w_tree (snd r)) ex_mo
+                 && same_underb ex_mo (w_tree (snd r)) (run_tree (commit ex_cfg) exm_tree NoInj)))
+          (List.seq 0 45) = true.
+Proof. vm_compute. repeat split. Qed.
